@@ -1,6 +1,6 @@
 (* C17 — Indexed table queries return exactly what a full scan would.  Property theorems only. *)
 From Coq Require Import ZArith List Bool Arith Sorting.Sorted.
-From Coba Require Import C17.Model C17.Proofs.
+From Coba Require Import C17.Model C17.Proofs C17.ProofsIndex C17.ProofsBuild.
 Import ListNotations.
 
 (* For EVERY operator, every argument (present or absent values, duplicates, bounds outside the
@@ -34,6 +34,38 @@ Theorem in_values_sorted_distinct : forall vs,
   StronglySorted cltP (cdedup (csort vs)) /\ forall x, In x (cdedup (csort vs)) <-> In x vs.
 Proof. exact (fun vs => conj (cdedup_ssorted _ (csort_sorted vs)) (fun x => iff_trans (cdedup_In x _) (csort_In x vs))). Qed.
 Print Assumptions in_values_sorted_distinct.
+
+(* The whole path.  indexed_ok is the index invariant, level by level: inside every run of equal values of the preceding index columns
+   (the runs where/groupby compute with calc_lohis) the level's column is sorted.  It holds trivially for a table without index. *)
+Theorem where_on_invariant_eq_scan : forall t kw o a vs, indexed_ok t -> (match o with OIn | ONin => True | _ => vs = [] end) ->
+  select1 t (kw, o, a, vs) = scan (sat o a vs) 0 (colv t kw).
+Proof. exact select1_eq_scan. Qed.
+Print Assumptions where_on_invariant_eq_scan.
+
+(* Table.index (any column list, any number of levels, any data incl. Missing cells and duplicates) establishes the invariant:
+   by induction over the index columns - each level sorts the positions inside the current runs (a stable insertion sort), refines the runs
+   by equal values, and later levels no longer move the columns of earlier levels. *)
+Theorem index_establishes_the_invariant : forall t names, wf_table t -> indexed_ok t -> indexed_ok (index t names).
+Proof. exact index_establishes_invariant. Qed.
+Print Assumptions index_establishes_the_invariant.
+
+Theorem index_only_permutes_rows : forall t names, wf_table t ->
+  exists F, Permutation.Permutation F (seq 0 (nrows t)) /\ cols (index t names) = map (fun c : Z * list cell => (fst c, permute None (snd c) F)) (cols t) \/ index t names = t.
+Proof. exact index_permutes_rows. Qed.
+Print Assumptions index_only_permutes_rows.
+
+(* hence: index a table on any columns, then ask for any keyword condition - the rows selected through the index, in order and multiplicity,
+   are exactly the rows a full scan of the (re-ordered) column selects *)
+Theorem indexed_query_eq_full_scan : forall t names kw o a vs, wf_table t -> indexed_ok t -> (match o with OIn | ONin => True | _ => vs = [] end) ->
+  select1 (index t names) (kw, o, a, vs) = scan (sat o a vs) 0 (colv (index t names) kw).
+Proof. exact indexed_where_eq_scan. Qed.
+Print Assumptions indexed_query_eq_full_scan.
+
+Example index_example :
+  let t := {| cols := [(1, [Some 3; Some 1; None; Some 1]); (2, [Some 5; Some 9; Some 2; Some 4])]; idxs := [] |}%Z in
+  cols (index t [1; 2]%Z) = [(1, [Some 1; Some 1; Some 3; None]); (2, [Some 4; Some 9; Some 5; Some 2])]%Z /\
+  select1 (index t [1; 2]%Z) (2%Z, OGe, Some 5%Z, []) = [1; 2].
+Proof. vm_compute. split; reflexivity. Qed.
 
 (* non-vacuity: a sorted segment with duplicates and Missing at the end, `in` with a duplicated value *)
 Example where_in_example :
